@@ -128,8 +128,8 @@ int main(int argc, char** argv) {
 			for (size_t len : lens) for (int v2 = 0; v2 < 2; ++v2) {
 				if (args.expired()) { R.incomplete = true; return R; }
 				std::string in = alph::input(len, (int)((len + shard) % 3));
-				vf::set_current(case_json(w.key, in, v2).dump());
-				d = check_case(w, in, v2, R, true); ++ordinal;
+				vf::set_current(case_json(w.key, in, v2).dump()); vf::watchdog(600);
+				d = check_case(w, in, v2, R, true); ++ordinal; alarm(0);
 				if (shard == 1 && len == 33) R.sample(case_json(w.key, in, v2), 2);
 				if (!d.empty()) { vf::Violation v; v.key = "c01:disagree"; v.what = "key(len " + std::to_string(w.key.size()) + ") input(len " + std::to_string(len) + ") " + (v2 ? "v2: " : "v1: ") + d; v.replay = case_json(w.key, in, v2).set("shard", shard).set("ordinal", ordinal - 1); R.viol.push_back(v); if (R.viol.size() >= 3) return R; }
 			}
